@@ -1,19 +1,30 @@
 (* C14 — HTTP server: graceful drain is honoured and bounded by DrainTimeout.   PARTIAL: everything inside
    net/http.Server.Shutdown is MODELLED (model/HttpDrain.v: the listener is closed first; Shutdown returns nil
    at a poll instant no later than [gap] after the server became idle, or the context error at its deadline;
-   time cannot pass a request's finishing instant nor the deadline), not verified.  The trigger - Stop(),
-   context cancel, Reload with a changed configuration - only decides who calls stopServer (model/HttpServer.v:
-   Run's and Reload's KStopPending -> LStopCallS -> LShutdownRet); the drain itself is this model.
-   Time unit: milliseconds.  This file contains only statements. *)
-From Coq Require Import List NArith Bool.
-From GS Require Import LTS HttpDrain HttpDrainProofs HttpCfg HttpServer HttpInv HttpInvStep2 HttpProps.
+   time cannot pass a request's finishing instant nor the deadline), not verified.
+   Three groups of statements:
+   (A) the hand model of Shutdown alone (C14_no_new ... C14_zero_drain; several restate a guard of [dstep] and are
+       marked DEFINITIONAL);
+   (B) the RUNNER: the protocol model of Run/Reload/stopServer composed with that drain model
+       (model/HttpCompose.v: they synchronise on boot, on the Shutdown call and on its return) - what stopServer
+       reports in every reachable state of the composition (C14_runner_drain), and what becomes of a reported timeout:
+       Run() returns it as its error, a Reload ends in the Error state (C14_run_reports_timeout,
+       C14_reload_reports_failure);
+   (C) DrainTimeout <= 0 (C14_zero_drain_always_times_out).
+   Time unit: that of DrainTimeout (the examples read it as milliseconds).  This file contains only statements. *)
+From Coq Require Import List NArith ZArith Bool.
+From GS Require Import LTS HttpDrain HttpDrainProofs HttpCfg HttpServer HttpInv HttpInvStep2 HttpProps HttpCompose HttpComposeProofs.
 Import ListNotations.
 Open Scope N_scope.
 
 (* all drain timeouts, all polling gaps, any number of requests with any durations arriving at any time
    before the stop trigger, all schedules *)
 
-(* From the instant Shutdown starts, every dial to the address is refused and no new request is accepted. *)
+(* ---------------- (A) the drain model alone ---------------- *)
+
+(* From the instant Shutdown starts, every dial to the address is refused and no new request is accepted.
+   DEFINITIONAL given the invariant "started => listener closed": both halves are the guards of DDial / DNewReq.
+   Hypotheses: s reachable in the drain model, Shutdown has been called (sd_start s = Some t0). *)
 Theorem C14_no_new : forall drain gap ls s t0,
   run (dstep drain gap) dinit ls = Some s -> sd_start s = Some t0 ->
   (forall ok s', dstep drain gap s (DDial ok) = Some s' -> ok = false) /\
@@ -40,9 +51,10 @@ Theorem C14_prompt : forall drain gap ls s t0 t ok,
   ok = true /\ t <= t0 + maxstop (reqs s) + gap.
 Proof. exact prompt. Qed.
 
-(* Always: Shutdown returns no later than the drain timeout after it was called, and if some request outlasts
-   the drain timeout the result is the deadline error (which stopServer wraps as ErrGracefulShutdownTimeout:
-   Run() returns it; on a Reload it becomes the Error state, C13_visible). *)
+(* Always: Shutdown returns no later than the drain timeout after it was called (DEFINITIONAL: the guards of
+   DTick and of the two DShutRet labels), and if some request outlasts the drain timeout the result is the deadline error (what the
+   runner makes of it: C14_run_reports_timeout, C14_reload_reports_failure below).
+   Hypotheses: s reachable, Shutdown called at t0 and returned at t with result ok. *)
 Theorem C14_bounded : forall drain gap ls s t0 t ok,
   run (dstep drain gap) dinit ls = Some s -> sd_start s = Some t0 -> sd_ret s = Some (t, ok) ->
   t0 <= t /\ t <= t0 + drain /\ (drain < maxstop (reqs s) -> ok = false).
@@ -71,7 +83,8 @@ Theorem C14_check_sound : forall drain gap ls s l s' t0,
 Proof. exact drain_check_sound. Qed.
 
 (* DrainTimeout = 0 (accepted by NewConfig; a negative value is the same already expired context): Shutdown
-   returns at the very instant it is called - it does not wait for anything, in particular not for a default. *)
+   returns at the very instant it is called - it does not wait for anything, in particular not for a default.
+   DEFINITIONAL (C14_bounded at drain 0). *)
 Theorem C14_zero_drain : forall gap ls s t0 t ok,
   run (dstep 0 gap) dinit ls = Some s -> sd_start s = Some t0 -> sd_ret s = Some (t, ok) -> t = t0.
 Proof.
@@ -90,7 +103,98 @@ Theorem C14_stop_reaches_live_server : forall sl validated mux_ok c0 ls s sid sv
   step sl validated mux_ok s LStopSkip = None /\ step sl validated mux_ok s (LStopCallS sid) <> None.
 Proof. exact stop_reaches_live_server. Qed.
 
+(* ---------------- (B) the runner: protocol model x drain model ---------------- *)
+
+(* The composition is faithful to both sides: every schedule of the composite projects to a schedule of the protocol
+   model reaching the composite's protocol component (so every theorem of C12/C13 about reachable protocol states
+   applies to it; foreign binders are preserved), and - per server generation - its drain component is a reachable
+   state of the drain model under the timeout of the Shutdown in flight (before the call: under any timeout). *)
+Theorem C14_composition_projects : forall sl validated mux_ok gap c0 cls cs,
+  run (cstep sl validated mux_ok gap) (cinit c0) cls = Some cs ->
+  (exists ls, run (step sl validated mux_ok) (init c0) ls = Some (cp cs) /\
+              (Forall cno_foreign_label cls -> no_foreign ls)) /\
+  (forall D, (sd_start (cd cs) <> None -> D = cpar cs) -> exists dls, run (dstep D gap) dinit dls = Some (cd cs)).
+Proof.
+  intros sl v m gap c0 cls cs H. split.
+  - exact (crun_proj sl v m gap cls _ _ H).
+  - exact (dproj_reach sl v m gap c0 cs (ex_intro _ cls H)).
+Qed.
+
+(* What stopServer reports - for EVERY reachable state of the composition (any reload history, any traffic, any
+   trigger: Run's own stopServer after Stop()/cancel, a Reload's, boot's cleanup), when its Shutdown returns with r:
+   it was called at t0 under the timeout D = cpar (the CURRENT configuration's DrainTimeout at the call) and
+   - bounded:  t0 <= now <= t0 + D;
+   - complete: every request that needed less than D when Shutdown was called has completed (full response);
+   - prompt:   if all requests need at most R and R + gap < D, the result is NOT the timeout and now <= t0 + R + gap;
+   - reported: if some request needs more than D, the result IS the timeout.
+   Hypotheses: cs reachable in the composition; the synchronised return CShutRet sid r is the step taken. *)
+Theorem C14_runner_drain : forall sl validated mux_ok gap c0 cs sid r cs',
+  creach sl validated mux_ok gap c0 cs ->
+  cstep sl validated mux_ok gap cs (CShutRet sid r) = Some cs' ->
+  exists t0, sd_start (cd cs) = Some t0 /\
+    (t0 <= now (cd cs) /\ now (cd cs) <= t0 + cpar cs) /\
+    (forall q, In q (reqs (cd cs')) -> q_stop q < cpar cs -> q_done q = true) /\
+    (maxstop (reqs (cd cs')) + gap < cpar cs -> r <> STimeout /\ now (cd cs) <= t0 + maxstop (reqs (cd cs')) + gap) /\
+    (cpar cs < maxstop (reqs (cd cs')) -> r = STimeout).
+Proof. exact runner_drain. Qed.
+
+(* "Run() reports the graceful-shutdown timeout as an error" - the code as it is (stop_locked = true), every
+   reachable state, NO hypothesis on the environment:
+   (1) when Run's own stopServer (holder = ByRun, Shutdown in flight) reports the timeout, shutdown() releases the
+       mutex with exactly that result pending;
+   (2) while it is pending Run's next step is enabled, and every step of anybody either leaves it pending or is that
+       step - which sets the state Error and makes the result of Run() the timeout error;
+   (3) from then on the only thing Run() can return is that error. *)
+Theorem C14_run_reports_timeout : forall validated mux_ok c0 ls s,
+  run (step true validated mux_ok) (init c0) ls = Some s ->
+  (forall sid s', holder s = Some ByRun -> kpc s = KStopWait sid ->
+     step true validated mux_ok s (LShutdownRet sid STimeout) = Some s' ->
+     rpc s' = RStopDone STimeout /\ holder s' = None) /\
+  (rpc s = RStopDone STimeout -> crashed s = false ->
+     step true validated mux_ok s LRunFinishStop <> None /\
+     forall l s', step true validated mux_ok s l = Some s' ->
+       rpc s' = RStopDone STimeout \/
+       (l = LRunFinishStop /\ rpc s' = RRet (RStop STimeout) /\ fsm_st s' = FError)) /\
+  (rpc s = RRet (RStop STimeout) ->
+     forall l s', step true validated mux_ok s l = Some s' ->
+       rpc s' = RRet (RStop STimeout) \/
+       (exists y, l = LRunRet y /\ rres_code y = rres_code (RStop STimeout) /\ rpc s' = RDone)).
+Proof.
+  intros v m c0 ls s Hr. split; [|split].
+  - intros sid s' Eh Ek H. exact (run_timeout_pending v m s sid s' Eh Ek H).
+  - intros Er Hc. split.
+    + rewrite (run_finish_enabled true v m s STimeout Hc Er). discriminate.
+    + intros l s' H. exact (run_timeout_kept true v m c0 ls s l s' Hr Er H).
+  - intros Er l s' H. exact (run_ret_kept true v m c0 ls s l s' (RStop STimeout) Hr Er H).
+Qed.
+
+(* the same result inside a Reload (trigger "reload with a changed configuration"): anything but success of the old
+   server's Shutdown - the timeout in particular - ends that Reload at once, in the state Error, mutex released
+   (both variants; hypotheses: the Reload caller i holds the mutex, its Shutdown of server sid is in flight) *)
+Theorem C14_reload_reports_failure : forall sl validated mux_ok s i sid r s',
+  holder s = Some (ByReload i) -> kpc s = KStopWait sid -> r <> SOk ->
+  step sl validated mux_ok s (LShutdownRet sid r) = Some s' ->
+  fsm_st s' = FError /\ holder s' = None /\ In i (rl_ret s').
+Proof. exact reload_stop_failure. Qed.
+
+(* ---------------- (C) DrainTimeout <= 0 ---------------- *)
+
+(* NewConfig accepts DrainTimeout <= 0.  stopServer's context is then expired when it is created and stopServer tests
+   it before looking at Shutdown's result: EVERY stop reports the timeout - with nothing in flight, too.  Hence
+   (C14_run_reports_timeout, C14_reload_reports_failure) every Stop()/cancel makes Run() return the timeout error and
+   every Reload with a changed configuration whose NEW DrainTimeout is <= 0 ends in the Error state with no server
+   running.  Confirmed on the real code; the model follows it.  Not a violation of C14 as worded (the return is
+   within the timeout; with requests in flight they all outlast it) - recorded in the claim. *)
+Theorem C14_zero_drain_always_times_out : forall sl validated mux_ok s sid r s',
+  (drain (cur s) <= 0)%Z -> step sl validated mux_ok s (LShutdownRet sid r) = Some s' -> r = STimeout.
+Proof. exact zero_drain_always_times_out. Qed.
+
 Print Assumptions C14_no_new.
+Print Assumptions C14_composition_projects.
+Print Assumptions C14_runner_drain.
+Print Assumptions C14_run_reports_timeout.
+Print Assumptions C14_reload_reports_failure.
+Print Assumptions C14_zero_drain_always_times_out.
 Print Assumptions C14_zero_drain.
 Print Assumptions C14_stop_reaches_live_server.
 Print Assumptions C14_check_sound.
@@ -98,6 +202,86 @@ Print Assumptions C14_complete.
 Print Assumptions C14_prompt.
 Print Assumptions C14_bounded.
 Print Assumptions C14_bounded_progress.
+
+(* ---- non-vacuity of (B) and (C): DrainTimeout 300, gap 20 ---- *)
+Definition c14_cfg (d : Z) : config :=
+  {| addr := [65%N]; drain := d; read_to := 1%Z; write_to := 2%Z; idle_to := 3%Z;
+     routes := [{| rname := [97%N]; rpath := [47%N; 120%N] |}] |}.
+Definition c14_up (d : Z) : list clabel :=
+  [CP LRunCall; CP LRunStart; CP LRunLock; CBoot 0 (c14_cfg d); CP (LBindOk 0); CP LProbeOk; CP LRunFinishBoot].
+(* a request of 500 outlasts the timeout: Stop() -> Shutdown called at 40, returns at 340 = the deadline with the
+   timeout; Run() returns the timeout error, state Error.  The state before the last three labels satisfies all
+   hypotheses of C14_runner_drain (reachable, CShutRet enabled) with 300 < maxstop = 460 *)
+Definition c14_comp_long : list clabel :=
+  c14_up 300 ++ [CD (DNewReq 0 500); CD (DTick 40); CP (LStopCall 0); CP LRunWake; CP LRunLockStop; CShutCall 0;
+                 CD (DDial false); CD (DTick 300)].
+Example C14_ex_runner_timeout :
+  match run (cstep true true (fun _ => true) 20) (cinit (c14_cfg 300)) c14_comp_long with
+  | Some cs =>
+    match cstep true true (fun _ => true) 20 cs (CShutRet 0 STimeout), cstep true true (fun _ => true) 20 cs (CShutRet 0 SOk) with
+    | Some cs', None =>
+      match run (cstep true true (fun _ => true) 20) cs' [CP LRunFinishStop; CP (LRunRet (RStop STimeout)); CP (LStopRet 0)] with
+      | Some cs'' =>
+        (cpar cs =? 300) && (maxstop (reqs (cd cs')) =? 460) && (now (cd cs) =? 340) &&
+        match holder (cp cs), kpc (cp cs), rpc (cp cs'), fsm_st (cp cs''), rpc (cp cs'') with
+        | Some ByRun, KStopWait 0, RStopDone STimeout, FError, RDone => true
+        | _, _, _, _, _ => false
+        end
+      | None => false
+      end
+    | _, _ => false
+    end
+  | None => false
+  end = true.
+Proof. vm_compute. reflexivity. Qed.
+(* a request of 100 finishes within the timeout: Shutdown returns nil 15 after it, far from the deadline; Run() = nil *)
+Definition c14_comp_short : list clabel :=
+  c14_up 300 ++ [CD (DNewReq 0 100); CD (DTick 40); CP (LStopCall 0); CP LRunWake; CP LRunLockStop; CShutCall 0;
+                 CD (DTick 60); CD (DFinish 0); CD (DTick 15)].
+Example C14_ex_runner_prompt :
+  match run (cstep true true (fun _ => true) 20) (cinit (c14_cfg 300)) c14_comp_short with
+  | Some cs =>
+    match cstep true true (fun _ => true) 20 cs (CShutRet 0 SOk), cstep true true (fun _ => true) 20 cs (CShutRet 0 STimeout) with
+    | Some cs', None =>
+      match run (cstep true true (fun _ => true) 20) cs' [CP LRunFinishStop; CP (LRunRet ROk)] with
+      | Some cs'' =>
+        (maxstop (reqs (cd cs')) =? 60) && (now (cd cs) =? 115) && all_done (reqs (cd cs')) &&
+        match fsm_st (cp cs''), rpc (cp cs'') with FStopped, RDone => true | _, _ => false end
+      | None => false
+      end
+    | _, _ => false
+    end
+  | None => false
+  end = true.
+Proof. vm_compute. reflexivity. Qed.
+(* the protocol schedule reaching "timeout pending" (hypotheses of C14_run_reports_timeout (2)) *)
+Example C14_ex_timeout_pending :
+  exists s, run (step true true (fun _ => true)) (init (c14_cfg 300))
+              [LRunCall; LRunStart; LRunLock; LBootCreate 0 (c14_cfg 300); LBindOk 0; LProbeOk; LRunFinishBoot;
+               LStopCall 0; LRunWake; LRunLockStop; LStopCallS 0; LShutdownRet 0 STimeout] = Some s /\
+            rpc s = RStopDone STimeout /\ crashed s = false /\ fsm_st s = FStopping.
+Proof. eexists. split; [vm_compute; reflexivity|]. repeat split. Qed.
+(* a Reload whose old server's Shutdown times out (hypotheses of C14_reload_reports_failure) *)
+Example C14_ex_reload_timeout :
+  exists s s', run (step true true (fun _ => true)) (init (c14_cfg 300))
+              [LRunCall; LRunStart; LRunLock; LBootCreate 0 (c14_cfg 300); LBindOk 0; LProbeOk; LRunFinishBoot;
+               LReloadCall 7; LReloadBegin 7; LFetch (CbCfg (c14_cfg 200)); LStopCallS 0] = Some s /\
+            holder s = Some (ByReload 7) /\ kpc s = KStopWait 0 /\
+            step true true (fun _ => true) s (LShutdownRet 0 STimeout) = Some s' /\ fsm_st s' = FError.
+Proof. do 2 eexists. split; [vm_compute; reflexivity|]. split; [reflexivity|]. split; [reflexivity|]. split; reflexivity. Qed.
+(* DrainTimeout 0, idle server: the only result is the timeout (hypotheses of C14_zero_drain_always_times_out) *)
+Example C14_ex_zero_drain_idle :
+  exists s, run (step true true (fun _ => true)) (init (c14_cfg 0))
+              [LRunCall; LRunStart; LRunLock; LBootCreate 0 (c14_cfg 0); LBindOk 0; LProbeOk; LRunFinishBoot;
+               LStopCall 0; LRunWake; LRunLockStop; LStopCallS 0] = Some s /\
+            (drain (cur s) <= 0)%Z /\
+            step true true (fun _ => true) s (LShutdownRet 0 SOk) = None /\
+            step true true (fun _ => true) s (LShutdownRet 0 SFail) = None /\
+            step true true (fun _ => true) s (LShutdownRet 0 STimeout) <> None.
+Proof.
+  eexists. split; [vm_compute; reflexivity|]. split; [cbn; discriminate|].
+  split; [reflexivity|]. split; [reflexivity|]. discriminate.
+Qed.
 
 (* ---- non-vacuity: drain 300 ms, polling gap 20 ms; one request of 100 ms, one of 500 ms ---- *)
 Definition c14_short : list dlabel :=
